@@ -19,7 +19,7 @@ ID = "C09"
 TECHNIQUE = "runtime monitoring: state monitor along transformation histories against the exact affine model"
 LEVEL = "exploration"
 RULE = ("random shapes of all kinds (simple, connected, disjoint, unbounded, curved, int/Fraction/float) x histories of "
-        "1-8 in-place transformations: move (two numbers / tuple / Point2D), scale (positive factors 1e-3..1e3 as "
+        "1-8 in-place transformations: move (two numbers / tuple / Point2D / one of the shape's own vertex objects; amounts down to 1e-9), scale (positive factors 1e-3..1e3 as "
         "int/Fraction/float, isotropic and anisotropic), rotate (any angle, radians and degrees); after each step "
         "every control point is compared with the affine image; then the inverse history is applied; non-trivial = "
         "a history with at least one step on a shape with a boundary; distinct = distinct case specs")
